@@ -211,7 +211,10 @@ def run(ctx):
     rts = next((f for f in p.funcs_in("resolver") if f.name == "resolve_target_state"), None)
     c.need(rts, "resolve_target_state in resolver.py")
     tparam = rts.params[0]
-    strat = [x for x in rts.node.body if isinstance(x, ast.If) and tparam in norm(x.test) and ("startswith" in norm(x.test) or "==" in norm(x.test))]
+    # (at any depth: a guard clause turned into an if/else moves the strategies into its else branch)
+    strat = [x for x in own_nodes(rts.node) if isinstance(x, ast.If) and any(isinstance(y, ast.Name) and y.id == tparam for y in ast.walk(x.test))
+             and ("startswith" in norm(x.test) or "==" in norm(x.test))
+             and not isinstance(x.test, ast.UnaryOp)]
     if c.expect("R7", "spelling strategies of resolve_target_state", len(strat), 3, rts, "resolve_target_state no longer distinguishes the '#absolute', '.' and '.relative' spellings"):
         for x in strat:
             ok = _ends(x.body)
